@@ -129,56 +129,92 @@ example : num2dtQ (4 * 730180) = .abs (.ok (mkDate 2000 3 1)) := by
 
 /-! ### dialects: the decision of uk2dt / us2dt on top of dateutil's month-first reading -/
 
-/-- what `parser.parse` is assumed to return for the text `a<sep>b<sep>yyyy [time]` -/
+/-- what `parser.parse` is assumed to return for the text `a<sep>b<sep>yyyy [hh:mm:ss[.ffffff]]` -/
+def numeric3u (a b y hms us : Int) : Parsed := ⟨true, a, y, (duResolve a b).1, (duResolve a b).2, hms, us⟩
+
+/-- … without a fraction of a second -/
 def numeric3 (a b y hms : Int) : Parsed := ⟨true, a, y, (duResolve a b).1, (duResolve a b).2, hms, 0⟩
 
-/-- UK spelling `d<sep>m<sep>yyyy` of a calendar date, read with the UK dialect, is that date — whether or not the
-day is ≤ 12 (the day < 13 case goes through the swap on line 302, the other through the `t[:2]` check) -/
-theorem uk_parse (y m d : Nat) (v : Valid y m d) (hy : 32 ≤ y ∧ y < 9999) (hms : Int) :
-    ukDecide (numeric3 d m y hms) = checkRange (mkDate y m d + hms) := by
+theorem numeric3_eq (a b y hms : Int) : numeric3 a b y hms = numeric3u a b y hms 0 := rfl
+
+/-- UK spelling `d<sep>m<sep>yyyy [time]` of a calendar date, read with the UK dialect, is that instant TO THE MICROSECOND —
+whether or not the day is ≤ 12 (the day < 13 case goes through the swap on line 303, which passes the microseconds on as the
+7th argument of `dt`; the other case through the `t[:2]` check) -/
+theorem uk_parse_micro (y m d : Nat) (v : Valid y m d) (hy : 32 ≤ y ∧ y < 9999) (hms us : Int) :
+    ukDecide (numeric3u d m y hms us) = checkRange (mkDate y m d + hms + us) := by
   have hv := v; unfold Valid at hv
   have hb := dim_bounds y m hv.2.2.1 hv.2.2.2.1
   have hym : Gen.ym (y : Int) (m : Int) = ((y : Int), (m : Int)) := ym_of_normal _ _ _ _ (by omega) (by omega) rfl
-  unfold ukDecide numeric3 duResolve
+  unfold ukDecide numeric3u duResolve
   by_cases hd : (d : Int) > 12
   · -- dateutil reads day-first because d > 12; the day is ≥ 13 and equals the first number
     have c1 : ¬ ((d : Int) < 13) := by omega
     simp only [hd, if_true, c1, if_false, ne_eq, not_true_eq_false]
     rw [mkDateChecked_valid y m d v]
-    simp only [Except.bind, Int.add_zero]
-  · -- dateutil reads month-first: month := d, day := m < 13, and line 302 swaps them back
+    simp only [Except.bind]
+  · -- dateutil reads month-first: month := d, day := m < 13, and line 303 swaps them back
     have c1 : ((m : Int) < 13) := by omega
     simp only [hd, if_false, c1, if_true]
     unfold ymdDate
     rw [ymd_small_day _ _ _ (by omega), hym, mkMonthPlus_day y m d (by omega) (by omega) (by omega)]
     simp only [hv.2.2.2.2.2, if_true, Except.bind]
 
-/-- US spelling `m<sep>d<sep>yyyy` read with the US dialect is that date -/
-theorem us_parse (y m d : Nat) (v : Valid y m d) (hms : Int) :
-    usDecide (numeric3 m d y hms) = checkRange (mkDate y m d + hms) := by
+theorem uk_parse (y m d : Nat) (v : Valid y m d) (hy : 32 ≤ y ∧ y < 9999) (hms : Int) :
+    ukDecide (numeric3 d m y hms) = checkRange (mkDate y m d + hms) := by
+  rw [numeric3_eq, uk_parse_micro y m d v hy hms 0, Int.add_zero]
+
+/-- the fraction of a second is NOT lost on the day ≤ 12 path: two readings that differ in the microseconds give
+different instants (before the repair of `dt(y,m,d,h,mi,s,us)` both gave the whole second) -/
+theorem uk_small_day_keeps_micro (y m d : Nat) (v : Valid y m d) (hy : 32 ≤ y ∧ y < 9999) (_hd : d ≤ 12) (hms us us' : Int)
+    (h0 : 0 ≤ hms + us ∧ hms + us < DAYUS) (h0' : 0 ≤ hms + us' ∧ hms + us' < DAYUS) (hne : us ≠ us') :
+    ukDecide (numeric3u d m y hms us) ≠ ukDecide (numeric3u d m y hms us') := by
+  rw [uk_parse_micro y m d v hy, uk_parse_micro y m d v hy]
+  have hm : 0 ≤ mkDate y m d ∧ mkDate y m d + DAYUS ≤ MAXUS := mkDate_day_in_range y m d v
+  have e1 : checkRange (mkDate y m d + hms + us) = .ok (mkDate y m d + hms + us) := (checkRange_ok _ _).2 ⟨by omega, rfl⟩
+  have e2 : checkRange (mkDate y m d + hms + us') = .ok (mkDate y m d + hms + us') := (checkRange_ok _ _).2 ⟨by omega, rfl⟩
+  rw [e1, e2]
+  intro h; injection h with h; omega
+
+-- '02/01/2000 03:04:05.000006' read with the UK dialect
+example : ukDecide (numeric3u 2 1 2000 11045000000 6) = .ok (mkDate 2000 1 2 + 11045000006) := ok_of_okVal (by decide +kernel)
+
+/-- US spelling `m<sep>d<sep>yyyy [time]` read with the US dialect is that instant to the microsecond -/
+theorem us_parse_micro (y m d : Nat) (v : Valid y m d) (hms us : Int) :
+    usDecide (numeric3u m d y hms us) = checkRange (mkDate y m d + hms + us) := by
   have hv := v; unfold Valid at hv
-  unfold usDecide numeric3 duResolve
+  unfold usDecide numeric3u duResolve
   have hm : ¬ ((m : Int) > 12) := by omega
   simp only [hm, if_false, ne_eq, not_true_eq_false, and_false]
   rw [mkDateChecked_valid y m d v]
-  simp only [Except.bind, Int.add_zero]
+  simp only [Except.bind]
 
-/-- an unambiguous day-month string (day > 12) written the US way is rejected by the UK dialect … -/
-theorem uk_rejects_us (y m d : Nat) (hm : 1 ≤ m ∧ m ≤ 12) (hd : 12 < d) (hms : Int) :
-    ukDecide (numeric3 m d y hms) = .error .value := by
-  unfold ukDecide numeric3 duResolve
+/-- US spelling `m<sep>d<sep>yyyy` read with the US dialect is that date -/
+theorem us_parse (y m d : Nat) (v : Valid y m d) (hms : Int) :
+    usDecide (numeric3 m d y hms) = checkRange (mkDate y m d + hms) := by
+  rw [numeric3_eq, us_parse_micro y m d v hms 0, Int.add_zero]
+
+/-- an unambiguous day-month string (day > 12) written the US way is rejected by the UK dialect (any time of day) … -/
+theorem uk_rejects_us_micro (y m d : Nat) (hm : 1 ≤ m ∧ m ≤ 12) (hd : 12 < d) (hms us : Int) :
+    ukDecide (numeric3u m d y hms us) = .error .value := by
+  unfold ukDecide numeric3u duResolve
   have c0 : ¬ ((m : Int) > 12) := by omega
   have c1 : ¬ ((d : Int) < 13) := by omega
   have c2 : (m : Int) ≠ (d : Int) := by omega
   simp only [c0, if_false, c1, ne_eq, c2, not_false_eq_true, if_true]
 
+theorem uk_rejects_us (y m d : Nat) (hm : 1 ≤ m ∧ m ≤ 12) (hd : 12 < d) (hms : Int) :
+    ukDecide (numeric3 m d y hms) = .error .value := uk_rejects_us_micro y m d hm hd hms 0
+
 /-- … and written the UK way is rejected by the US dialect, instead of being silently swapped -/
-theorem us_rejects_uk (y m d : Nat) (hm : 1 ≤ m ∧ m ≤ 12) (hd : 12 < d) (hms : Int) :
-    usDecide (numeric3 d m y hms) = .error .value := by
-  unfold usDecide numeric3 duResolve
+theorem us_rejects_uk_micro (y m d : Nat) (hm : 1 ≤ m ∧ m ≤ 12) (hd : 12 < d) (hms us : Int) :
+    usDecide (numeric3u d m y hms us) = .error .value := by
+  unfold usDecide numeric3u duResolve
   have c0 : ((d : Int) > 12) := by omega
   have c2 : (m : Int) ≠ (d : Int) := by omega
   simp only [c0, if_true, ne_eq, c2, not_false_eq_true, and_self]
+
+theorem us_rejects_uk (y m d : Nat) (hm : 1 ≤ m ∧ m ≤ 12) (hd : 12 < d) (hms : Int) :
+    usDecide (numeric3 d m y hms) = .error .value := us_rejects_uk_micro y m d hm hd hms 0
 
 example : Valid 2000 1 13 ∧ (12 < 13) := by decide
 
@@ -317,7 +353,7 @@ theorem dt2str_roundtrip (t : Int) (h0 : mkDate 1000 1 1 ≤ t) (h1 : t < MAXUS)
 /-- the same on strings: `dt(dt2str(t))` -/
 theorem dt2str_roundtrip_str (t : Int) (h0 : mkDate 1000 1 1 ≤ t) (h1 : t < MAXUS) (uk : Bool) :
     dtStr uk (dt2str t) = some (.ok t) := by
-  unfold dtStr dt2str; rw [String.toList_ofList]; exact dt2str_roundtrip t h0 h1 uk
+  unfold dtStr dt2str; rw [String.toList_ofList, strip_dt2strCs]; exact dt2str_roundtrip t h0 h1 uk
 
 -- non-vacuity: 2000-01-10T20:30:40.000050 (the docstring example of dt2str)
 example : dt2str 63083133040000050 = "2000-01-10T20:30:40.000050" ∧ mkDate 1000 1 1 ≤ 63083133040000050 ∧ (63083133040000050 : Int) < MAXUS := by
